@@ -253,11 +253,8 @@ def toText (fl : FloatText) (pretty : Bool) (v : TV) : Except SerError Bytes :=
   | some (.tbl items) =>
     -- root: `if !children.is_empty() { *first_table = false }`
     .ok (renderStmts fl pretty (ownValues items).isEmpty (emitDoc items))
-  | some (.dt d) =>
-    -- `toml::ser::Serializer::serialize_struct(_name, len)` is `serialize_map`: a bare date-time becomes a
-    -- one-entry document under the private key "$__toml_private_datetime"
-    let e : List (Bytes × TV) := [(privateField, .str (Datetime.Std.display d))]
-    .ok (renderStmts fl pretty false (emitDoc e))
+  -- a bare date-time: `toml::ser::Serializer::serialize_struct` passes the struct name on, the inner
+  -- serializer builds a date-time, and `write_document` refuses it as a non-table root
   | some _ => .error .unsupportedType
 
 /-- `toml::to_string(&t)` for a `toml::Table`: `impl Serialize for Map` (`crates/toml/src/map.rs`) hands the
